@@ -35,6 +35,11 @@ type InflHistory struct {
 // (the cache persists between them: call-history independence, I3).
 type InflCase struct {
 	Histories []InflHistory `json:"histories"`
+	// Volume: instead of histories, N distinct equal-length inputs per word in one process (Goroutines
+	// of them concurrently in the -race binary when Race is set).
+	Volume     int    `json:"volume,omitempty"`
+	VolumeTag  string `json:"volume_tag,omitempty"`
+	Goroutines int    `json:"goroutines,omitempty"`
 	// Race: run with real goroutines under the race detector instead of the
 	// cooperative scheduler (not deterministic; Reps repetitions).
 	Race bool `json:"race,omitempty"`
@@ -178,6 +183,10 @@ func executeInfl(env *Env, sc *Scenario) ([]Violation, string, error) {
 	ic := sc.Infl
 	if ic == nil {
 		return nil, "", infra("infl scenario without case")
+	}
+	if ic.Volume > 0 {
+		v, err := executeInflVolume(env, sc)
+		return v, "race-leg-not-deterministic", err
 	}
 	if ic.Race {
 		v, err := executeInflRace(env, sc)
@@ -380,6 +389,62 @@ func executeInflRace(env *Env, sc *Scenario) ([]Violation, error) {
 	return viol, nil
 }
 
+// executeInflVolume: many distinct inputs in one process - what a long-lived code generator feeds the
+// inflector. Sequentially in the scheduled binary (direct mode), or concurrently under the race detector.
+func executeInflVolume(env *Env, sc *Scenario) ([]Violation, error) {
+	ic := sc.Infl
+	// irregular words of each rule type: the prefix clause of the property applies to exactly these
+	req := &inflproto.Req{Mode: "volume", N: ic.Volume, Tag: ic.VolumeTag, Goroutines: ic.Goroutines,
+		PWords: []string{"person", "child", "ox", "cow", "man", "move", "foot", "goose"},
+		SWords: []string{"people", "children", "oxen", "cows", "men", "moves", "feet", "geese"}}
+	var resp inflproto.Resp
+	if ic.Race {
+		data, _ := json.Marshal(req)
+		cmd := exec.Command(env.InflRace, "volume")
+		cmd.Env = append(os.Environ(), "GOMAXPROCS=16", "GORACE=halt_on_error=1 exitcode=66")
+		cmd.Stdin = bytes.NewReader(data)
+		var stdout, stderr bytes.Buffer
+		cmd.Stdout, cmd.Stderr = &stdout, &stderr
+		if err := cmd.Run(); err != nil {
+			switch {
+			case strings.Contains(stderr.String(), "DATA RACE"):
+				return []Violation{{Property: "C20", Oracle: "R1", Class: "data-race", Detail: "volume run: " + raceSummary(stderr.String())}}, nil
+			case strings.Contains(stderr.String(), "fatal error: concurrent map"):
+				return []Violation{{Property: "C20", Oracle: "R1", Class: "concurrent-map-access", Detail: "volume run: " + panicLine(stderr.String())}}, nil
+			case strings.Contains(stderr.String(), "fatal error:") || strings.Contains(stderr.String(), "panic:"):
+				return []Violation{{Property: "C20", Oracle: "I1", Class: "panic", Detail: "volume run: " + panicLine(stderr.String())}}, nil
+			}
+			return nil, infra("inflrace volume: %v: %s", err, clip(stderr.String()))
+		}
+		if err := json.Unmarshal(stdout.Bytes(), &resp); err != nil {
+			return nil, infra("inflrace volume: %v", err)
+		}
+	} else {
+		w, err := startInfl(env, env.InflBin)
+		if err != nil {
+			return nil, err
+		}
+		r, err := inflDo(env, w, req)
+		w.Close()
+		if err != nil {
+			return nil, err
+		}
+		resp = *r
+	}
+	env.Stats.Add("infl-volume-calls", int64(resp.Checked))
+	env.Stats.Add("infl-histories", 1)
+	var viol []Violation
+	for _, mm := range resp.Mismatches {
+		class := "result-wrong-in-long-lived-process"
+		if strings.HasPrefix(mm, "panic:") {
+			class = "panic"
+		}
+		viol = append(viol, Violation{Property: "C20", Oracle: "I3", Class: class, Detail: fmt.Sprintf("after up to %d distinct inputs in one process: %s", ic.Volume, mm)})
+		break
+	}
+	return viol, nil
+}
+
 func raceSummary(s string) string {
 	var out []string
 	for _, l := range strings.Split(s, "\n") {
@@ -415,6 +480,20 @@ func SimC20(c *CheckCtx, i int, r *Rng) error {
 	if i%8 == 0 {
 		race := &Scenario{Kind: "infl", Infl: &InflCase{Histories: ic.Histories, Race: true, Reps: 8}}
 		if _, err := c.RunScenario(race, i); err != nil {
+			return err
+		}
+	}
+	// the volume legs: a process that has seen very many distinct names
+	thorough := c.Tier == "thorough"
+	switch {
+	case i == 3:
+		n := map[bool]int{false: 150000, true: 700000}[thorough]
+		if _, err := c.RunScenario(&Scenario{Kind: "infl", Infl: &InflCase{Volume: n, VolumeTag: fmt.Sprintf("v%d", c.Seed%10)}}, i); err != nil {
+			return err
+		}
+	case i == 5:
+		n := map[bool]int{false: 40000, true: 250000}[thorough]
+		if _, err := c.RunScenario(&Scenario{Kind: "infl", Infl: &InflCase{Volume: n, VolumeTag: fmt.Sprintf("r%d", c.Seed%10), Race: true, Goroutines: 8}}, i); err != nil {
 			return err
 		}
 	}
